@@ -560,7 +560,9 @@ def oracle(chk, case, r):
                  {"input": inp, "expected": r["geo"]["before"], "observed": r["geo"]["after"]})
     if r.get("values_bad"):
         bad = True
-        chk.fail("property", "data-unreadable-after-write:" + ("append" if not mode_w else classify_destroyed(case, r, 0, tkey)),
+        hit = [key for needed in r["needed"] for key in sorted(real_keys(r, needed)) if eff.get(key, 0) != 0]
+        chk.fail("property", "data-unreadable-after-write:" + ("append" if not mode_w else
+                                                               classify_destroyed(case, r, 0, hit[0] if hit else tkey)),
                  f"after cfdm.write the data of a construct can no longer be read as before: {r['values_bad'][0]}"[:500],
                  {"input": inp, "observed": r["values_bad"][:3], "error": r["error"]})
     if mode_w:
